@@ -30,6 +30,7 @@ structure DState where
   lastTx : Array Nat := Array.replicate 16 0
   blk    : BlockSide := {}
   esp    : Option (Fsm × Fsm × Fsm) := none
+  nest   : Option (List String) := none     -- op `nest`: the `rx` another interface's thread performs while the next `rx` sleeps
 
 def b2n (b : Bool) : Nat := if b then 1 else 0
 
@@ -103,6 +104,15 @@ def step (s : DState) (toks : List String) : DState × List String :=
     match parseDec d with
     | some n => let w := { s.w with clockMs := s.w.clockMs + n }; ({ s with w := w }, [s!"now {w.clockMs}"])
     | none => (s, bad)
+  | "nest" :: j :: hex :: rest =>
+    -- interfaces are isolated: whatever the other thread does during a sleep of this one, the result is that of the
+    -- two frames handled one after the other (the loop emits the deferred `rx` after the next one)
+    let zero := rest.length == 2 && rest.head? == some "zero"
+    let kOk := match rest.getLast? with
+      | some k => (match parseDec k with | some n => decide (1 ≤ n ∧ n ≤ 1000) | none => false)
+      | none => false
+    if !(rest.length == 1 || zero) || !kOk || (parseIdx j 8).isNone || (parseHex hex).isNone then (s, bad)
+    else ({ s with nest := some (["rx", j, hex] ++ (if zero then ["zero"] else [])) }, ["ok"])
   | ["poison", b] =>
     match parseDec b with
     | some n => if n > 255 then (s, bad) else ({ s with w := { s.w with poison := n } }, ["ok"])
@@ -351,7 +361,15 @@ partial def loop (h : IO.FS.Stream) (out : IO.FS.Stream) (s : DState) : IO DStat
     let (s', lines) := step s (tokens l)
     for x in lines do out.putStrLn x
     out.putStrLn (endLine s'.w)
-    loop h out { s' with blk := s'.blk.rotate }
+    let s' := { s' with blk := s'.blk.rotate }
+    match s'.nest, (tokens l).head? with
+    | some toks, some "rx" =>
+      out.putStrLn ("# " ++ " ".intercalate toks)
+      let (s2, lines2) := step { s' with nest := none } toks
+      for x in lines2 do out.putStrLn x
+      out.putStrLn (endLine s2.w)
+      loop h out { s2 with blk := s2.blk.rotate }
+    | _, _ => loop h out s'
 
 end Driver
 
